@@ -206,6 +206,11 @@ fn quota_case(case: usize, dq: &str, sq: &str) -> String {
         6 => { let b = candid::encode_args((Some(f), 5u8)).unwrap(); show(decode_args_with_config_debug::<(Option<EchoFn>, u8)>(&b, &cfg)) }
         7 => { let b = candid::encode_args((vec![Some(candid::Nat::from(5u8)); 20], candid::Int::from(-3))).unwrap();
                show(decode_args_with_config_debug::<(Vec<Option<candid::Int>>,)>(&b, &cfg)) }
+        // surplus arguments that occupy no value bytes (hand-built: DIDL, empty table, n arguments of type null / reserved)
+        8 => { let mut b = b"DIDL\x00\xc8\x01".to_vec(); b.extend(std::iter::repeat(0x7f).take(200));
+               show(decode_args_with_config_debug::<()>(&b, &cfg)) }
+        9 => { let mut b = b"DIDL\x00\x15\x7b".to_vec(); b.extend(std::iter::repeat(0x7f).take(10)); b.extend(std::iter::repeat(0x70).take(10)); b.push(7);
+               show(decode_args_with_config_debug::<(u8,)>(&b, &cfg)) }
         _ => "bad".to_string(),
     }
 }
